@@ -95,12 +95,12 @@ Proof.
   - unfold keyrem. clear H2. induction ksk as [|[t a] l IH]; cbn; [constructor|].
     inversion H1 as [|? ? Hn Hd]; subst. specialize (IH Hd).
     assert (Hone : keyrem_one now fm (t, a) = [] \/ exists b, keyrem_one now fm (t, a) = [(t, b)]).
-    { unfold keyrem_one. cbn [fst snd]. destruct (fm_has fm t a); destruct (ta_st a); cbn;
-        repeat match goal with |- context [if ?c then _ else _] => destruct c end; eauto. }
+    { unfold keyrem_one. cbn [fst snd]. destruct a as [k0 s0 fs0]. destruct (fm_has fm t _); destruct s0; cbn [ta_st ta_key ta_fs];
+        repeat match goal with |- context [(?c >? ?d)%Z] => destruct (c >? d)%Z end; eauto. }
     destruct Hone as [->|(b & ->)]; cbn; [exact IH|]. constructor; [|exact IH].
-    intros Hin. apply Hn. apply in_map_iff in Hin. destruct Hin as ([x c] & Hx & Hc). cbn in Hx. subst x.
-    apply in_flat_map in Hc. destruct Hc as ([x a0] & Hi & Ho). apply keyrem_one_spec in Ho. destruct Ho as [-> _].
-    apply in_map_iff. exists (t, a0). split; [reflexivity|exact Hi].
+    intros Hin. apply Hn. apply in_map_iff in Hin. destruct Hin as ([x c] & Hx & Hc). cbn in Hx. rewrite Hx in Hc.
+    apply in_flat_map in Hc. destruct Hc as ([x2 a0] & Hi & Ho). apply keyrem_one_spec in Ho. destruct Ho as [E _].
+    apply in_map_iff. exists (x2, a0). split; [cbn; symmetry; exact E|exact Hi].
   - intros t b Hin. apply (keyrem_in tag) in Hin. destruct Hin as (a & Hi & Hc). specialize (H2 _ _ Hi).
     destruct Hc as [-> _ _ _|_ _ ->|_ _ _ ->|_ _ ->]; cbn; exact H2.
 Qed.
